@@ -2259,6 +2259,14 @@ type corpusDoc struct {
 }
 
 func replayDoc(doc corpusDoc, sec *vh.Section) {
+	switch doc.Section { // the glue sections are re-run as a whole (their inputs name the failing literal)
+	case "lqltime":
+		sectionLqlTime(vh.NewRng(args.Seed).Fork("lqltime"))
+		return
+	case "pipepath":
+		sectionPipePath(vh.NewRng(args.Seed).Fork("pipepath"))
+		return
+	}
 	var k kase
 	if json.Unmarshal(doc.Input, &k) == nil && k.Format != "" && k.I.Mo != 0 {
 		switch {
@@ -2522,5 +2530,7 @@ func main() {
 	sectionInteger(rng.Fork("integer"))
 	sectionRelative(rng.Fork("relative"))
 	sectionFloatModel(rng.Fork("floatmodel"))
+	sectionLqlTime(rng.Fork("lqltime"))
+	sectionPipePath(rng.Fork("pipepath"))
 	res.Write(args.Out)
 }
